@@ -8,6 +8,7 @@ import (
 	"io"
 	"os"
 	"runtime"
+	"sort"
 	"strconv"
 )
 
@@ -118,7 +119,15 @@ func NewZlispWithFuncs(funcs map[string]ZlispUserFunction) *Zlisp {
 	env.AddGlobal("null", SexpNull)
 	env.AddGlobal("nil", SexpNull)
 
-	for key, function := range funcs {
+	// intern the builtin names in sorted order, so that symbol
+	// numbers do not depend on Go's random map iteration order.
+	funcNames := make([]string, 0, len(funcs))
+	for key := range funcs {
+		funcNames = append(funcNames, key)
+	}
+	sort.Strings(funcNames)
+	for _, key := range funcNames {
+		function := funcs[key]
 		sym := env.MakeSymbol(key)
 		env.builtins[sym.number] = MakeUserFunction(key, function)
 		env.AddFunction(key, function)
